@@ -1,4 +1,4 @@
-import QibProofs.Lemmas.FermiBridge
+import QibProofs.Lemmas.FermiExec
 /-!
 C10 — Second-quantised operators obey the fermionic algebra.
 
@@ -19,7 +19,6 @@ Vocabulary
 -/
 open Complex Matrix
 namespace Qib.Fermi
-open Qib.Pauli (natOfBits natOfBits_lt bitsOfIdx bitsOfIdx_natOfBits bitAt bitAt_natOfBits tens pauliZ)
 
 /-! ### the reference ladder matrices are the ones the code builds -/
 
@@ -100,6 +99,16 @@ theorem C10_term_mat_def (L : ℕ) (t : Term) :
 
 theorem C10_op_mat_def (L : ℕ) (op : FieldOp) : op.mat L = (op.terms.map (Term.mat L)).sum := rfl
 
+/-- the same sum written over all index tuples `g : Fin n → Fin L`, for a term with `n` fermionic operators
+(`kind a = true` for a creation operator) and an `L × … × L` coefficient array:
+`mat = Σ_g coeffs[g] • (ladder(g 0, kind 0) · ladder(g 1, kind 1) ⋯ ladder(g (n-1), kind (n-1)))` -/
+theorem C10_term_mat_sum (L n : ℕ) (ds : Fin n → IFODesc) (kind : Fin n → Bool)
+    (hkind : ∀ a, opKind (ds a).otype = some (kind a)) (c : Tensor) (hs : c.shape = List.replicate n L) :
+    (Term.mk (List.ofFn ds) c).mat L =
+      ∑ g : Fin n → Fin L, gqC (c.get (List.ofFn fun a => (g a : ℕ))) •
+        (List.ofFn fun a => ladderM L (g a) (kind a)).prod :=
+  Term.mat_sum L n ds kind hkind c hs
+
 /-- what the executable `as_matrix` returns *is* that sum: for an operator on exactly one fermionic field whose terms
 carry fermionic operators, non-empty coefficient arrays and no non-zero coefficient outside the lattice, the loop of
 lines 219-233 (C-order visit, zero coefficients skipped, left-to-right products, `op += coeff * fstring`) succeeds
@@ -140,6 +149,24 @@ theorem C10_asMatrix_refuses (op : FieldOp) :
   refine ⟨fun h => by simp [FieldOp.asMatrix, h], fun f g fs h => by simp [FieldOp.asMatrix, h], fun f h hp => ?_⟩
   simp [FieldOp.asMatrix, h, hp]
 
+/-- on one fermionic field, with terms as the constructors build them (`ndim = len(opdesc)`, fermionic operator types,
+non-empty arrays): `as_matrix` returns a matrix iff no non-zero coefficient sits at an index tuple that leaves the
+lattice, and raises `IndexError` otherwise (zero coefficients are skipped before any lookup) -/
+theorem C10_asMatrix_ok_iff (op : FieldOp) (f : FieldD) (hf : op.fields = [f]) (hp : f.ptype = .fermion)
+    (hpre : ∀ t ∈ op.terms, t.Pre) :
+    ((∃ M, op.asMatrix = .ok M) ↔ ∀ t ∈ op.terms, ¬ t.OutOfRange f.nsites) ∧
+    ((∃ t ∈ op.terms, t.OutOfRange f.nsites) → op.asMatrix = .error .indexError) := by
+  refine ⟨⟨fun ⟨M, hM⟩ t ht hbad => ?_, fun h => ?_⟩, fun hbad => asMatrix_indexError op f hf hp hpre hbad⟩
+  · rw [asMatrix_indexError op f hf hp hpre ⟨t, ht, hbad⟩] at hM; cases hM
+  · obtain ⟨M, e, _⟩ := asMatrix_spec op f hf hp (fun t ht => Term.good_of_pre _ t (hpre t ht) (h t ht))
+    exact ⟨M, e⟩
+
+/-- a zero-sized coefficient array is refused with `ValueError` (`np.nditer`), once the terms before it were processed -/
+theorem C10_asMatrix_valueError (op : FieldOp) (f : FieldD) (hf : op.fields = [f]) (hp : f.ptype = .fermion)
+    (ts rest : List Term) (t : Term) (hts : op.terms = ts ++ t :: rest) (hg : ∀ u ∈ ts, u.Good f.nsites)
+    (h0 : prodL t.coeffs.shape = 0) : op.asMatrix = .error .valueError :=
+  asMatrix_valueError op f hf hp ts rest t hts hg h0
+
 /-! ### adjoint, sum, product -/
 
 /-- the constructor accepts exactly `ndim = len(opdesc)`; `adjoint` and `@` preserve it -/
@@ -174,6 +201,73 @@ theorem C10_sum_mat (L : ℕ) (a : FieldOp) (as : List FieldOp) :
 /-- `(A @ B).mat = A.mat * B.mat` (all pairwise products of terms) -/
 theorem C10_mul_mat (L : ℕ) (a b : FieldOp) (h : ∀ t ∈ a.terms, t.WF) : (a.mul b).mat L = a.mat L * b.mat L :=
   FieldOp.mul_mat L a b h
+
+/-! ### the same laws for what the executable `as_matrix` returns -/
+
+/-- `op.Good f`: exactly one field `f`, fermionic, every term built by the constructor and processable.
+It is preserved by `adjoint`, `+` and `@`, so `as_matrix` succeeds on every expression built from such operators -/
+theorem C10_good_closed (f : FieldD) (a b : FieldOp) (ha : a.Good f) (hb : b.Good f) :
+    a.adjoint.Good f ∧ (a.add b).Good f ∧ (b.terms ≠ [] → (a.mul b).Good f) :=
+  ⟨FieldOp.adjoint_good f a ha, FieldOp.add_good f a b ha hb, FieldOp.mul_good f a b ha hb⟩
+
+/-- `as_matrix()` succeeds on a good operator, returns a `2^L × 2^L` array, and its value (`execM`, the returned array
+read at flat indices with site 0 most significant) is `FieldOp.mat` -/
+theorem C10_exec_mat (f : FieldD) (op : FieldOp) (h : op.Good f) :
+    (∃ M, op.asMatrix = .ok M ∧ M.n = 2 ^ f.nsites ∧ M.m = 2 ^ f.nsites) ∧ op.execM f.nsites = op.mat f.nsites :=
+  FieldOp.execM_eq f op h
+
+/-- `op.adjoint().as_matrix() = op.as_matrix()ᴴ` -/
+theorem C10_exec_adjoint (f : FieldD) (op : FieldOp) (h : op.Good f) :
+    op.adjoint.execM f.nsites = (op.execM f.nsites)ᴴ := by
+  rw [(FieldOp.execM_eq f _ (FieldOp.adjoint_good f op h)).2, (FieldOp.execM_eq f op h).2,
+    FieldOp.adjoint_mat _ op h.wf]
+
+/-- `(A + B).as_matrix() = A.as_matrix() + B.as_matrix()` -/
+theorem C10_exec_add (f : FieldD) (a b : FieldOp) (ha : a.Good f) (hb : b.Good f) :
+    (a.add b).execM f.nsites = a.execM f.nsites + b.execM f.nsites := by
+  rw [(FieldOp.execM_eq f _ (FieldOp.add_good f a b ha hb)).2, (FieldOp.execM_eq f a ha).2,
+    (FieldOp.execM_eq f b hb).2, FieldOp.add_mat]
+
+/-- `(A @ B).as_matrix() = A.as_matrix() @ B.as_matrix()` -/
+theorem C10_exec_mul (f : FieldD) (a b : FieldOp) (ha : a.Good f) (hb : b.Good f) (hbne : b.terms ≠ []) :
+    (a.mul b).execM f.nsites = a.execM f.nsites * b.execM f.nsites := by
+  rw [(FieldOp.execM_eq f _ (FieldOp.mul_good f a b ha hb hbne)).2, (FieldOp.execM_eq f a ha).2,
+    (FieldOp.execM_eq f b hb).2, FieldOp.mul_mat _ a b ha.wf]
+
+/-- the elementary operators `a_i`, `a†_i` as field operators (one term, one operator, coefficient vector `e_i`):
+`as_matrix()` returns the reference ladder matrix -/
+theorem C10_exec_ladder (f : FieldD) (hp : f.ptype = .fermion) (i : Fin f.nsites) (create : Bool) :
+    (ladderOp f i create).Good f ∧ (ladderOp f i create).execM f.nsites = ladderM f.nsites i create := by
+  have g := ladderOp_good f hp i create
+  exact ⟨g, by rw [(FieldOp.execM_eq f _ g).2, ladderOp_mat]⟩
+
+/-- CAR end to end: the executable `as_matrix()` of the field operator `a_i @ a†_j + a†_j @ a_i`, built with the model's
+`@` and `+`, succeeds and returns `δᵢⱼ · 1`; likewise `a_i @ a_j + a_j @ a_i` and `a†_i @ a†_j + a†_j @ a†_i` return 0 -/
+theorem C10_exec_car (f : FieldD) (hp : f.ptype = .fermion) (i j : Fin f.nsites) (ki kj : Bool) :
+    let A := ladderOp f i ki
+    let B := ladderOp f j kj
+    ((A.mul B).add (B.mul A)).Good f ∧
+    ((A.mul B).add (B.mul A)).execM f.nsites =
+      if ki = kj then 0 else if i = j then 1 else 0 := by
+  intro A B
+  have gA : A.Good f := ladderOp_good f hp i ki
+  have gB : B.Good f := ladderOp_good f hp j kj
+  have hA : A.terms ≠ [] := by simp [A, ladderOp]
+  have hB : B.terms ≠ [] := by simp [B, ladderOp]
+  have gAB := FieldOp.mul_good f A B gA gB hB
+  have gBA := FieldOp.mul_good f B A gB gA hA
+  have g := FieldOp.add_good f _ _ gAB gBA
+  refine ⟨g, ?_⟩
+  rw [(FieldOp.execM_eq f _ g).2, FieldOp.add_mat, FieldOp.mul_mat _ A B gA.wf, FieldOp.mul_mat _ B A gB.wf,
+    ladderOp_mat, ladderOp_mat]
+  by_cases hk : ki = kj
+  · subst hk; rw [if_pos rfl]; exact car_same_kind _ i j ki
+  · rw [if_neg hk]
+    cases ki <;> cases kj
+    · exact absurd rfl hk
+    · exact car_ac _ i j
+    · rw [add_comm, car_ac _ j i]; simp only [eq_comm]
+    · exact absurd rfl hk
 
 /-! ### the Hermiticity flag -/
 
